@@ -182,7 +182,7 @@ PROPS["C01"] = {
     "technique": "Lean 4: coset identity for every sampler outcome z in any commutative ring, centring is norm-minimal, sign/verify agree at the bound (extracted operators); trace refinement: the model recomputes each traced signature's bytes exactly from (key, salt, msg, z) and verifies them; independent specification verifier on every signature",
     "rule": "ops = sign + verify through the public API with an injected replayable generator: 2 keys per variant (8 thorough), messages of length 0, 1, 135, 136, 10000 and random, every signature judged by the library's verify AND by the harness's specification verifier; every 6th signature additionally as a traced op (key polynomials, salt, message, rounded sampler output z) whose signature bytes and verdict the Lean model recomputes exactly; 16-thread shared-key runs; distinct by op line",
     "exhaustive": {"quick": (False, ""), "thorough": (False, "")},
-    "level_text": "Machine-checked integer core, for every hashed point c and EVERY sampler outcome (z0, z1): with f*G = g*F (mod q) and h = g/f, (s1, s2) = (c + z0 g + z1 G, -(z0 f + z1 F)) satisfies c - s2 h = s1; the centred representative never has larger norm; sign retries iff norm > bound while verify accepts iff norm <= bound (operators re-extracted), so whatever sign returns passes the specification's test that verify computes (C02), after a lossless compression (C07). Assembled end to end on bytes (signed_bytes_verify): for both variants, if the model of sign (norm test, byte-level compress, to_bytes) returns signature bytes for a sampler outcome z instead of retrying, those bytes parse with Signature::from_bytes and verify (hash, byte-level decompress, NTT product, centring, norm test) returns true; its hypotheses (h*f = g, h*F = G, salt length, hash length) are evaluated on every traced signature (hyp=ok). List-level core (honest_signature_verifies): for every n = 2^d <= 1024, every key with h*f = g and h*F = G mod q (established for each generated key by C04.keyCheck_ok_relations), every hashed point and every sampler outcome, if the exact pair is within the bound and s2 fits the byte budget then the model of verify (NTT product, centring, norm, byte-level decompression) returns true on the emitted bytes, in both build modes. The floating-point remainder (rounded inverse FFT exact; float norm vs exact norm) is validated per traced signature: the model rebuilds the exact signature bytes from z. Schedules: sign takes &SecretKey, the crate has no interior mutability or globals (translator scan, C15), thread_rng is thread-local; 16-thread shared-key runs are executed as support.",
+    "level_text": "Machine-checked integer core, for every hashed point c and EVERY sampler outcome (z0, z1): with f*G = g*F (mod q) and h = g/f, (s1, s2) = (c + z0 g + z1 G, -(z0 f + z1 F)) satisfies c - s2 h = s1; the centred representative never has larger norm; sign retries iff norm > bound while verify accepts iff norm <= bound (operators re-extracted), so whatever sign returns passes the specification's test that verify computes (C02), after a lossless compression (C07). Assembled end to end on bytes (signed_bytes_verify): for both variants, if the model of sign (norm test, byte-level compress, to_bytes) returns signature bytes for a sampler outcome z instead of retrying, those bytes parse with Signature::from_bytes and verify (hash, byte-level decompress, NTT product, centring, norm test) returns true; its hypotheses are evaluated by the model driver and reported as hyp=ok: salt length and hash length on every traced signature, the key relations h*f = g, h*F = G (exact integer check) on the first traced signature of every key. List-level core (honest_signature_verifies): for every n = 2^d <= 1024, every key with h*f = g and h*F = G mod q (established for each generated key by C04.keyCheck_ok_relations), every hashed point and every sampler outcome, if the exact pair is within the bound and s2 fits the byte budget then the model of verify (NTT product, centring, norm, byte-level decompression) returns true on the emitted bytes, in both build modes. The floating-point remainder (rounded inverse FFT exact; float norm vs exact norm) is validated per traced signature: the model rebuilds the exact signature bytes from z. Schedules: sign takes &SecretKey, the crate has no interior mutability or globals (translator scan, C15), thread_rng is thread-local; 16-thread shared-key runs are executed as support.",
     "level_note": "Trusted: Lean kernel + Mathlib ring tactics; the floating-point sampler is a universally quantified parameter (z); its accuracy is checked per trace, not proved; rare retry branches (compression overflow: ~1e-3 per Falcon-1024 signature) are reached only when sampled, the translator additionally pins that the salt is written once.",
     "trusted_base": TB_COMMON + ["floating-point FFT / ffSampling: a parameter of the theorems, validated per trace"],
     "assumptions": ["keys satisfy the NTRU relation and h = g/f (C04)"],
